@@ -550,7 +550,7 @@ func (s *c06EditServer) query(deadline time.Duration, q3 uint16) (obs []c06Obs, 
 }
 
 func c06SameObs(a, b c06Obs) bool {
-	if a.timeout != b.timeout || a.panicked != b.panicked || a.reason != b.reason || a.canon != b.canon || len(a.ips) != len(b.ips) {
+	if a.timeout != b.timeout || a.panicked != b.panicked || a.reason != b.reason || a.canon != b.canon || a.covered != b.covered || len(a.ips) != len(b.ips) {
 		return false
 	}
 	x, y := make([]string, len(a.ips)), make([]string, len(b.ips))
